@@ -33,12 +33,24 @@ func (db *DatabaseContext) DeleteRole(ctx context.Context, name string, purge bo
 		return base.ErrNotFound
 	}
 
+	// Only a non-purging delete of a live role stores a sequence on the role document.
+	if purge || role.IsDeleted() {
+		return authenticator.DeleteRole(role, purge, 0)
+	}
+
 	seq, err := db.sequences.nextSequence(ctx)
 	if err != nil {
 		return err
 	}
 
-	return authenticator.DeleteRole(role, purge, seq)
+	err = authenticator.DeleteRole(role, purge, seq)
+	if err != nil && !base.IsTimeoutError(err) {
+		// the role document was not updated, release the sequence to avoid an abandoned sequence
+		if releaseErr := db.sequences.releaseSequence(ctx, seq); releaseErr != nil {
+			base.InfofCtx(ctx, base.KeyAuth, "Error releasing unused sequence %d after failed delete of role %s: %v", seq, base.UD(name), releaseErr)
+		}
+	}
+	return err
 }
 
 // UpdatePrincipal updates or creates a principal from a PrincipalConfig structure.
